@@ -31,3 +31,11 @@ package k8s
 //@   ensures lockstate(l.Mutex) == 0 && lockframe(l.Mutex)
 //@   assert before PoolChanged: [serialised] lockstate(l.Mutex) == 2
 //@   modifies $held
+
+// The reconcilers are handed the locking wrappers (method values of the embedded Listener), never the raw callbacks.
+//@ func New
+//@   lockonly
+//@   binds controllers.ConfigReconciler.Handler to (*internal/k8s.Listener).ConfigHandler
+//@   binds controllers.PoolReconciler.Handler to (*internal/k8s.Listener).PoolHandler
+//@   binds controllers.NodeReconciler.Handler to (*internal/k8s.Listener).NodeHandler
+//@   binds controllers.ServiceReconciler.Handler to (*internal/k8s.Listener).ServiceHandler
